@@ -386,7 +386,7 @@ func buildEntry(e rEntry, impl string, km kindMap, tb *vtable) jsonapi.Resource 
 }
 
 func runResourceCase(c rCase) (ev rEvent, ok bool) {
-	km := kindMap{Shift: c.Var.Shift, NamedID: c.Var.NamedID}
+	km := kindMap{Shift: c.Var.Shift, NamedID: c.Var.NamedID, Decoy: c.Var.Decoy}
 	tb := tableFor(c.Var.Table, c.Seed)
 	zero := rEntry{Fields: defMap{}, Vals: valMap{}}
 	if c.Kind == "eq" {
@@ -557,7 +557,7 @@ func resourceMain(args []string) {
 	}
 	w := newEvWriter(*out, 40000)
 	variant := func() cVariant {
-		v := cVariant{Shift: rng.Intn(len(nonBool)), Table: rng.Intn(3), NoFrom: rng.Intn(3) == 0, Built: rng.Intn(4) == 0, NamedID: rng.Intn(4) == 0}
+		v := cVariant{Shift: rng.Intn(len(nonBool)), Table: rng.Intn(3), NoFrom: rng.Intn(3) == 0, Built: rng.Intn(4) == 0, NamedID: rng.Intn(4) == 0, Decoy: rng.Intn(4) == 0}
 		if rng.Intn(2) == 0 {
 			v.Shift = 0 // the byte-string kinds sit at shift 0
 		}
